@@ -390,23 +390,28 @@ pub fn parse_history(text: &str) -> Option<Vec<Op>> {
     Some(ops)
 }
 
-pub fn run_history<T: Conv, C: Cont<T>>(path: &[Op]) -> Result<(), String>
+pub use crate::sliding::Mode;
+
+pub fn run_history<T: Conv, C: Cont<T>>(path: &[Op], mode: Mode) -> Result<(), String>
 where
     (): SortedDequeMarker<T, Key = T::K>,
 {
     let mut st: St<T, C> = St::new();
     for (i, op) in path.iter().enumerate() {
+        if mode == Mode::CloneBeforeEachOp {
+            st = st.clone();
+        }
         st.apply(*op, true)
             .map_err(|e| format!("step {} ({}): {}", i + 1, op.name(), e))?;
     }
     Ok(())
 }
 
-fn violation<T: Conv, C: Cont<T>>(rep: &mut Report, path: &[Op], err: &str)
+fn violation<T: Conv, C: Cont<T>>(rep: &mut Report, path: &[Op], err: &str, mode: Mode)
 where
     (): SortedDequeMarker<T, Key = T::K>,
 {
-    if run_history::<T, C>(path).is_ok() {
+    if run_history::<T, C>(path, mode).is_ok() {
         machinery_failure(&format!(
             "violation did not reproduce on replay: {} / {}",
             render(path),
@@ -417,16 +422,18 @@ where
     rep.violation(Violation {
         key: format!("C16:{}:{}:{}", T::NAME, <C as Cont<T>>::NAME, hist.replace(' ', "")),
         summary: format!(
-            "SortedDeque<{}, {}> after [{}]: {}",
+            "SortedDeque<{}, {}> after [{}] ({}): {}",
             <C as Cont<T>>::NAME,
             T::NAME,
             hist,
+            mode.name(),
             err
         ),
         replay_text: format!(
-            "check: sorted\nconvention: {}\nbacking: {}\nhistory: {}\nobserved: {}\n",
+            "check: sorted\nconvention: {}\nbacking: {}\nmode: {}\nhistory: {}\nobserved: {}\n",
             T::NAME,
             <C as Cont<T>>::NAME,
+            mode.name(),
             hist,
             err
         ),
@@ -458,7 +465,7 @@ where
             rep.transitions += 1;
             rep.count("closure_transitions", 1);
             match next.apply(*op, true) {
-                Err(e) => violation::<T, SpyVec<T>>(rep, &npath, &e),
+                Err(e) => violation::<T, SpyVec<T>>(rep, &npath, &e, Mode::CloneBeforeEachOp),
                 Ok(()) => {
                     rep.max_depth = rep.max_depth.max(npath.len() as u64);
                     if seen.insert(next.shape()) {
@@ -508,7 +515,7 @@ impl Dfs<'_> {
             match next.apply(op, shallow) {
                 Err(e) => {
                     let path = self.path.clone();
-                    violation::<T, C>(self.rep, &path, &e);
+                    violation::<T, C>(self.rep, &path, &e, Mode::CloneBeforeEachOp);
                 }
                 Ok(()) => {
                     if next.removed_middle {
@@ -559,13 +566,22 @@ pub fn dfs<T: Conv, C: Cont<T>>(
     cap: usize,
     depth: usize,
     unit_base: &mut usize,
+    prefix: &[Op],
 ) where
     (): SortedDequeMarker<T, Key = T::K>,
 {
     let ops = all_ops();
-    // Partition on the first three ops (the first must be a push to be interesting,
-    // but everything is enumerated).
-    let st0: St<T, C> = St::new();
+    // Non-initial start: the prefix history is executed first (same clone-before-each-op way).
+    let mut st0: St<T, C> = St::new();
+    for (i, op) in prefix.iter().enumerate() {
+        st0 = st0.clone();
+        if let Err(e) = st0.apply(*op, true) {
+            if ctx.owns(*unit_base) {
+                violation::<T, C>(rep, &prefix[..=i], &e, Mode::CloneBeforeEachOp);
+            }
+            return;
+        }
+    }
     for a in &ops {
         for b in &ops {
             let unit = *unit_base;
@@ -574,22 +590,24 @@ pub fn dfs<T: Conv, C: Cont<T>>(
                 continue;
             }
             let mut st = st0.clone();
-            let mut path = vec![*a];
+            let mut path = prefix.to_vec();
+            path.push(*a);
             if *b == ops[0] {
                 rep.evaluations += 1;
                 rep.transitions += 1;
             }
             if let Err(e) = st.apply(*a, true) {
                 if *b == ops[0] {
-                    violation::<T, C>(rep, &path, &e);
+                    violation::<T, C>(rep, &path, &e, Mode::CloneBeforeEachOp);
                 }
                 continue;
             }
             path.push(*b);
             rep.evaluations += 1;
             rep.transitions += 1;
+            let mut st = st.clone();
             if let Err(e) = st.apply(*b, true) {
-                violation::<T, C>(rep, &path, &e);
+                violation::<T, C>(rep, &path, &e, Mode::CloneBeforeEachOp);
                 continue;
             }
             if depth > 2 {
@@ -597,12 +615,65 @@ pub fn dfs<T: Conv, C: Cont<T>>(
                     rep,
                     ops: ops.clone(),
                     path,
-                    depth,
+                    depth: depth + prefix.len(),
                 };
                 d.go(&st, depth - 2, closure, cap);
             }
             rep.max_depth = rep.max_depth.max(depth as u64);
         }
+    }
+}
+
+/// Non-initial starts: histories that leave the deque in a state the short DFS from empty does not
+/// reach together with enough remaining depth (tombstones then clear, two interior tombstones, emptied by pops, ...).
+pub fn prefixes() -> Vec<Vec<Op>> {
+    use Op::*;
+    vec![
+        vec![Push, Push, Push, Remove(1), Clear],
+        vec![Push, Push, Push, Push, Push, Remove(1), Remove(3)],
+        vec![Push, Push, Push, Push, Remove(1), Remove(2), PopFirst],
+        vec![Push, Push, Push, PopFirst, PopFirst, PopFirst],
+        vec![Push, Push, Push, Push, Remove(2), PopLast, PopLast],
+        vec![Push, PushErased, Push, Remove(0), Push, Push, Remove(3)],
+    ]
+}
+
+/// All op sequences up to `depth`, each executed on ONE object (no clones), so the backing
+/// container's capacity follows its real growth policy.
+pub fn dfs_straight<T: Conv, C: Cont<T>>(ctx: &Ctx, rep: &mut Report, depth: usize, unit_base: &mut usize)
+where
+    (): SortedDequeMarker<T, Key = T::K>,
+{
+    let ops = all_ops();
+    let n = ops.len();
+    for len in 1..=depth {
+        let total = n.pow(len as u32);
+        let block = if len >= 2 { n.pow((len - 2) as u32) } else { total };
+        let mut idx = 0usize;
+        while idx < total {
+            let unit = *unit_base + idx / block;
+            if ctx.owns(unit) {
+                for j in idx..idx + block {
+                    let mut digits = vec![0usize; len];
+                    let mut x = j;
+                    for d in (0..len).rev() {
+                        digits[d] = x % n;
+                        x /= n;
+                    }
+                    let path: Vec<Op> = digits.iter().map(|d| ops[*d]).collect();
+                    rep.evaluations += 1;
+                    rep.transitions += len as u64;
+                    rep.count("straight_histories", 1);
+                    if let Err(e) = run_history::<T, C>(&path, Mode::Straight) {
+                        if e.starts_with(&format!("step {} ", len)) {
+                            violation::<T, C>(rep, &path, &e, Mode::Straight);
+                        }
+                    }
+                }
+            }
+            idx += block;
+        }
+        *unit_base += if len >= 2 { n * n } else { 1 };
     }
 }
 
@@ -618,10 +689,17 @@ pub fn run(ctx: &Ctx) -> Report {
     }
     let depth = ctx.tier.pick(7, 8);
     let mut unit = 0usize;
-    dfs::<Pair, SpyVec<Pair>>(ctx, &mut rep, Some(&cl_pair), cap, depth, &mut unit);
-    dfs::<Whole, SpyVec<Whole>>(ctx, &mut rep, Some(&cl_whole), cap, depth, &mut unit);
-    dfs::<Pair, SmallVec<[Pair; 4]>>(ctx, &mut rep, None, cap, depth, &mut unit);
-    dfs::<Whole, Vec<Whole>>(ctx, &mut rep, None, cap, depth - 1, &mut unit);
+    dfs::<Pair, SpyVec<Pair>>(ctx, &mut rep, Some(&cl_pair), cap, depth, &mut unit, &[]);
+    dfs::<Whole, SpyVec<Whole>>(ctx, &mut rep, Some(&cl_whole), cap, depth, &mut unit, &[]);
+    dfs::<Pair, SmallVec<[Pair; 4]>>(ctx, &mut rep, None, cap, depth, &mut unit, &[]);
+    dfs::<Whole, Vec<Whole>>(ctx, &mut rep, None, cap, depth - 1, &mut unit, &[]);
+    for p in prefixes() {
+        dfs::<Pair, SpyVec<Pair>>(ctx, &mut rep, None, cap, depth - 1, &mut unit, &p);
+        dfs::<Whole, Vec<Whole>>(ctx, &mut rep, None, cap, depth - 2, &mut unit, &p);
+    }
+    dfs_straight::<Pair, SmallVec<[Pair; 4]>>(ctx, &mut rep, depth - 2, &mut unit);
+    dfs_straight::<Whole, Vec<Whole>>(ctx, &mut rep, depth - 2, &mut unit);
+    rep.note(format!("C16: {} non-initial start histories (tombstones then clear, two interior tombstones, emptied by pops, ...) each followed by all op sequences to depth {} (pair/SpyVec) / {} (whole/Vec); the cloning explorers copy the deque before every op (exactly-fitting capacity), the straight explorer re-executes all histories to depth {} on one object", prefixes().len(), depth - 1, depth - 2, depth - 2));
     rep.note(format!(
         "C16: closure over (physical length, consumed prefix, tombstone flags) with <= {} physical items reached a fix-point for both item conventions; DFS of all op sequences ({} ops incl. remove-by-rank) completed to depth {} (pair/SpyVec, whole/SpyVec, pair/SmallVec4) and {} (whole/Vec); debug_assertions={}",
         cap,
@@ -642,11 +720,15 @@ pub fn replay(text: &str) -> Result<String, String> {
     let Some(ops) = parse_history(hist) else {
         machinery_failure("cannot parse history");
     };
+    let mode = match field(text, "mode") {
+        Some("straight") => Mode::Straight,
+        _ => Mode::CloneBeforeEachOp,
+    };
     let r = match (conv, backing) {
-        ("whole", "Vec") => run_history::<Whole, Vec<Whole>>(&ops),
-        ("whole", _) => run_history::<Whole, SpyVec<Whole>>(&ops),
-        ("pair", "SmallVec4") => run_history::<Pair, SmallVec<[Pair; 4]>>(&ops),
-        _ => run_history::<Pair, SpyVec<Pair>>(&ops),
+        ("whole", "Vec") => run_history::<Whole, Vec<Whole>>(&ops, mode),
+        ("whole", _) => run_history::<Whole, SpyVec<Whole>>(&ops, mode),
+        ("pair", "SmallVec4") => run_history::<Pair, SmallVec<[Pair; 4]>>(&ops, mode),
+        _ => run_history::<Pair, SpyVec<Pair>>(&ops, mode),
     };
     match r {
         Err(e) => Ok(format!("[{}] {}", hist, e)),
